@@ -11,7 +11,8 @@
                outside translate/py2coq.py's subset:
                  rowsXcols = first marker // 4 - 2 ; record_length = rowsXcols + 4 ; records = size // record_length ;
                  reshape(records, record_length) ; the for loop leaves i = index of the first record whose (time, date)
-                 differs from record 0 -- or, WHEN NONE DIFFERS, the LAST index (the loop falls through) ;
+                 differs from record 0 ; WHEN NONE DIFFERS temperature raises ValueError (for/else, repaired by 9020b2c)
+                 while height_pressure falls through with i = the LAST index ;
                  LAY = i - 1 (temperature) / int(i / 2) (height_pressure) ; TSTEP = int(records / i) (ZeroDivisionError for
                  i = 0) ; ValueError unless rows * cols = rowsXcols ;
                  lazily, on the first variable access: reshape(TSTEP, LAY + 1, rc + 4) resp. (TSTEP, LAY, 2, rc + 4) of the
@@ -105,7 +106,13 @@ Record hview := {
   hv_pres : list (list (list word))                        (* PRES [t][k] *)
 }.
 
-(* the for/break loop: first index whose stamp differs from record 0, else the LAST index *)
+(* temperature (as repaired by 9020b2c): the for/else loop -- first index whose stamp differs from record 0, else raise *)
+Definition fd_strict (rws : list (list word)) : option nat :=
+  match rws with
+  | [] => None
+  | r0 :: _ => first_diff (row_stamp r0) rws 0
+  end.
+(* height_pressure: the for/break loop: first index whose stamp differs from record 0, else the LAST index *)
 Definition fd_or_last (rws : list (list word)) : nat :=
   match rws with
   | [] => O
@@ -136,19 +143,22 @@ Definition t_mm_read (rows cols : Z) (ws : list word) (size : Z) : result tview 
   match th_rows ws size with
   | None => Err
   | Some (rws, records, rxc) =>
-    let i := Z.of_nat (fd_or_last rws) in
-    if i =? 0 then Err else                                   (* times.shape[0] / i : ZeroDivisionError *)
-    let lays := i - 1 in
-    let tsteps := records / i in                              (* int(records / i) *)
-    if negb (cols * rows =? rxc) then Err else
-    (* __var_get: reshape(times, lays + 1, rows * cols + 4); markers; variables *)
-    if negb (tsteps * (lays + 1) =? records) then Err else
-    if negb (markers_ok rws) then Err else
-    let groups := group (Z.to_nat tsteps) (Z.to_nat i) rws in
-    Ok {| tv_nx := cols; tv_ny := rows; tv_nz := lays; tv_ntimes := tsteps;
-          tv_stamps := map (fun g => row_stamp (hd [] g)) groups;
-          tv_surf := map (fun g => row_cells (rows * cols) (hd [] g)) groups;
-          tv_air := map (fun g => map (row_cells (rows * cols)) (tl g)) groups |}
+    match fd_strict rws with
+    | None => Err                                             (* for/else: no record carries a later time stamp *)
+    | Some ni =>
+      let i := Z.of_nat ni in                                 (* i >= 1: record 0 equals itself *)
+      let lays := i - 1 in
+      let tsteps := records / i in                            (* int(records / i) *)
+      if negb (cols * rows =? rxc) then Err else
+      (* __var_get: reshape(times, lays + 1, rows * cols + 4); markers; variables *)
+      if negb (tsteps * (lays + 1) =? records) then Err else
+      if negb (markers_ok rws) then Err else
+      let groups := group (Z.to_nat tsteps) ni rws in
+      Ok {| tv_nx := cols; tv_ny := rows; tv_nz := lays; tv_ntimes := tsteps;
+            tv_stamps := map (fun g => row_stamp (hd [] g)) groups;
+            tv_surf := map (fun g => row_cells (rows * cols) (hd [] g)) groups;
+            tv_air := map (fun g => map (row_cells (rows * cols)) (tl g)) groups |}
+    end
   end.
 
 Definition h_mm_read (rows cols : Z) (ws : list word) (size : Z) : result hview :=
@@ -187,17 +197,6 @@ Definition t_rec_words (c : temperature) : Z := t_nx c * t_ny c + 4.
 Definition t_step_words (c : temperature) : Z := (t_nz c + 1) * t_rec_words c.
 Definition h_rec_words (c : heightpres) : Z := h_nx c * h_ny c + 4.
 Definition h_step_words (c : heightpres) : Z := 2 * h_nz c * h_rec_words c.
-
-(* what the temperature reader FABRICATES from the first two records of any file (surface record and first layer record
-   of step 0): two "steps" without layers, the layer record presented as a second surface field *)
-Definition t_two_record_view (c : temperature) : tview :=
-  match t_steps c with
-  | s :: _ =>
-    {| tv_nx := t_nx c; tv_ny := t_ny c; tv_nz := 0; tv_ntimes := 2;
-       tv_stamps := [(ts_time s, ts_date s); (ts_time s, ts_date s)];
-       tv_surf := [ts_surf s; hd [] (ts_air s)]; tv_air := [[]; []] |}
-  | [] => t_view_of c
-  end.
 
 (* ---- the record readers (temperature/Read.py, height_pressure/Read.py) ---------------------------------
    TRANSLATED (Gen/Camx.v): height_pressure __layerrecords / __timerecords / __recordposition (hpr_ definitions);
